@@ -1736,6 +1736,12 @@ namespace jsoncons {
                         case json_storage_kind::json_ref:
                             return compare(rhs.cast<json_ref_storage>().value());
                         default:
+                            if (is_string_storage(rhs.storage_kind()) && is_number_tag(rhs.tag()))
+                            {
+                                const double x = static_cast<double>(cast<int64_storage>().value());
+                                const double y = rhs.as_double();
+                                return x == y ? 0 : (x < y ? -1 : 1);
+                            }
                             return static_cast<int>(storage_kind()) - static_cast<int>(rhs.storage_kind());
                     }
                     break;
@@ -1765,6 +1771,12 @@ namespace jsoncons {
                         case json_storage_kind::json_ref:
                             return compare(rhs.cast<json_ref_storage>().value());
                         default:
+                            if (is_string_storage(rhs.storage_kind()) && is_number_tag(rhs.tag()))
+                            {
+                                const double x = static_cast<double>(cast<uint64_storage>().value());
+                                const double y = rhs.as_double();
+                                return x == y ? 0 : (x < y ? -1 : 1);
+                            }
                             return static_cast<int>(storage_kind()) - static_cast<int>(rhs.storage_kind());
                     }
                     break;
